@@ -244,7 +244,7 @@ def execute(case):
         res["counters"]["streams:%d" % len(case["seeds"])] = 1
         res["nontrivial"] = info["reset_or_restore_after_draws"] and info["draws_after"]
         res["case_digest"] = common.digest8(case)
-    res["digest"] = common.digest([case, f])
+    res["digest"] = common.digest([case, f and f[0]])
     if f:
         res["status"] = "violation"
         res["check_id"], res["message"] = f
